@@ -6,6 +6,7 @@
   emitted up to a flush.
 -/
 import MlaModel.Proofs.CompressWriter
+import MlaModel.Proofs.CompressFailSafe
 namespace MlaModel
 
 /-- a finished encoder stream of the plaintext `b` -/
@@ -13,8 +14,10 @@ def IsFinished (K : Codec) (b c : Bytes) : Prop :=
   ∃ lvl acts, EAct.written acts = b ∧
     c = (K.runActs (K.einit lvl) acts).2 ++ K.efinish (K.runActs (K.einit lvl) acts).1
 
-structure CW.OpenS (P : Params) (K : Codec) (level : Nat) (p out : Bytes)
-    (written : Nat) (es : K.ES) (done : List Bytes) (eacts : List EAct) : Prop where
+structure CW.OpenS (P : Params) (K : Codec) (level : Nat) (sizes : List Nat) (p out : Bytes)
+    (written : Nat) (es : K.ES) (cnt : Nat) (done : List Bytes) (eacts : List EAct) : Prop where
+  sizes : sizes = done.map List.length
+  cnt : cnt = (K.runActs (K.einit level) eacts).2.length
   enc : ∀ k (h : k < done.length), IsFinished K (blockOf P p k) done[k]
   es : es = (K.runActs (K.einit level) eacts).1
   rest : EAct.written eacts = p.drop (done.length * P.block)
@@ -26,8 +29,9 @@ structure CW.OpenS (P : Params) (K : Codec) (level : Nat) (p out : Bytes)
 def CW.InvS (P : Params) (K : Codec) (level : Nat) (w : CW K) (p out : Bytes) : Prop :=
   w.level = level ∧
   match w.st with
-  | .ready => p = [] ∧ out = []
-  | .inData written es _ => ∃ done eacts, CW.OpenS P K level p out written es done eacts
+  | .ready => w.sizes = [] ∧ p = [] ∧ out = []
+  | .inData written es cnt =>
+    ∃ done eacts, CW.OpenS P K level w.sizes p out written es cnt done eacts
 
 theorem CW.invS_init (P : Params) (K : Codec) (level : Nat) :
     CW.InvS P K level (CW.init K level) [] [] := by
@@ -46,8 +50,9 @@ theorem CW.write_invS (P : Params) (K : Codec) (level : Nat) (w : CW K)
   subst hlvl
   cases st with
   | ready =>
-    obtain ⟨hp, ho⟩ := hst
-    subst hp ho
+    obtain ⟨hs, hp, ho⟩ := hst
+    simp only at hs
+    subst hs hp ho
     simp only [CW.write]
     generalize hsz : min P.block buf.length = size
     have hs1 : 0 < size := by omega
@@ -57,7 +62,7 @@ theorem CW.write_invS (P : Params) (K : Codec) (level : Nat) (w : CW K)
     refine ⟨⟨rfl, [], [.write (buf.take size)], ?_⟩, hs1, hs2⟩
     constructor <;> simp [Codec.runActs_write, htl, hs1, hs3]
   | inData written es cnt =>
-    obtain ⟨done, eacts, hblk, hes, hrest, hlen, hpos, hle, hout⟩ := hst
+    obtain ⟨done, eacts, hsz, hcnt, hblk, hes, hrest, hlen, hpos, hle, hout⟩ := hst
     by_cases hfull : written = P.block
     · simp only [CW.write, hfull, if_true]
       generalize hsize : min P.block buf.length = size
@@ -68,7 +73,10 @@ theorem CW.write_invS (P : Params) (K : Codec) (level : Nat) (w : CW K)
       have hpl : p.length = (done.length + 1) * P.block := by rw [hlen, hfull, Nat.add_mul]; omega
       refine ⟨⟨rfl, done ++ [(K.runActs (K.einit lvl) eacts).2 ++ K.efinish es],
         [.write (buf.take size)], ?_⟩, hs1, hs2⟩
+      simp only at hsz
       constructor
+      · simp [hsz, hcnt]
+      · simp [Codec.runActs_write]
       · intro k hk
         simp only [List.length_append, List.length_singleton] at hk
         by_cases hk' : k < done.length
@@ -98,6 +106,8 @@ theorem CW.write_invS (P : Params) (K : Codec) (level : Nat) (w : CW K)
       have hk0 : done.length * P.block ≤ p.length := by omega
       refine ⟨⟨rfl, done, eacts ++ [.write (buf.take size)], ?_⟩, hs1, hs2⟩
       constructor
+      · exact hsz
+      · simp [Codec.runActs_append, Codec.runActs_write, ← hes, hcnt]
       · intro k hk
         rw [blockOf_append_of_le]
         · exact hblk k hk
@@ -137,10 +147,12 @@ theorem CW.flush_invS (P : Params) (K : Codec) (level : Nat) (w : CW K) (p out :
   cases st with
   | ready => simpa [CW.InvS, CW.flush] using hst
   | inData written es cnt =>
-    obtain ⟨done, eacts, hblk, hes, hrest, hlen, hpos, hle, hout⟩ := hst
+    obtain ⟨done, eacts, hsz, hcnt, hblk, hes, hrest, hlen, hpos, hle, hout⟩ := hst
     refine ⟨rfl, done, eacts ++ [.flush], ?_⟩
     simp only [CW.flush]
     constructor
+    · exact hsz
+    · simp [Codec.runActs_append, Codec.runActs_flush, ← hes, hcnt]
     · exact hblk
     · simp [Codec.runActs_append, Codec.runActs_flush, ← hes]
     · rw [EAct.written_append, hrest]; simp
@@ -207,17 +219,75 @@ theorem compRun_flush_streams (P : Params) (K : Codec) (level : Nat) (acts : Lis
   cases st with
   | ready =>
     left
-    obtain ⟨h1, h2⟩ := hst
+    obtain ⟨_, h1, h2⟩ := hst
     refine ⟨h1, ?_⟩
     rw [hr]; simp [CW.flush, h2]
   | inData written es cnt =>
     right
-    obtain ⟨done, eacts, hblk, hes, hrest, hlen, hpos, hle, hout⟩ := hst
+    obtain ⟨done, eacts, hsz, hcnt, hblk, hes, hrest, hlen, hpos, hle, hout⟩ := hst
     refine ⟨done, level, eacts, ?_, hblk, hrest, ?_⟩
     · rw [hr]
       simp only [CW.flush]
       rw [hout, hes, Codec.runActs_append, Codec.runActs_flush]
       simp [List.append_assoc]
     · rw [hrest]; simp; omega
+
+/-- **`finalize`**: the bytes emitted up to and including `finalize` are finished encoder streams of
+    the blocks of the plaintext (`IsEncoded`) followed by the sizes table -/
+theorem CW.finalize_encoded (P : Params) (K : Codec) (level : Nat) (w : CW K) (p out : Bytes)
+    (h : CW.InvS P K level w p out) :
+    ∃ cs, CompFS.IsEncoded P K p cs ∧
+      out ++ w.finalize K =
+        cs.flatten ++ encSizes ⟨cs.map List.length, p.length - (cs.length - 1) * P.block⟩ := by
+  have hB := P.hblock
+  obtain ⟨st, sizes, lvl⟩ := w
+  obtain ⟨hlvl, hst⟩ := h
+  simp only at hlvl
+  subst hlvl
+  cases st with
+  | ready =>
+    obtain ⟨hs, hp, ho⟩ := hst
+    simp only at hs
+    subst hs hp ho
+    refine ⟨[], ⟨?_, ?_⟩, ?_⟩
+    · simp only [List.length_nil, Nat.zero_add]
+      rw [Nat.div_eq_of_lt (by omega)]
+    · intro k hk; simp at hk
+    · simp [CW.finalize]
+  | inData written es cnt =>
+    obtain ⟨done, eacts, hsz, hcnt, hblk, hes, hrest, hlen, hpos, hle, hout⟩ := hst
+    simp only at hsz
+    refine ⟨done ++ [(K.runActs (K.einit lvl) eacts).2 ++ K.efinish es], ⟨?_, ?_⟩, ?_⟩
+    · simp only [List.length_append, List.length_singleton]
+      have : p.length + P.block - 1 = P.block * (done.length) + (written + P.block - 1) := by
+        rw [hlen, Nat.mul_comm]; omega
+      rw [this, Nat.mul_add_div hB]
+      obtain ⟨d, hd⟩ : ∃ d, written = d + 1 := ⟨written - 1, by omega⟩
+      have : written + P.block - 1 = d + P.block := by omega
+      rw [this, Nat.add_div_right _ hB, Nat.div_eq_of_lt (by omega)]
+    · intro k hk
+      simp only [List.length_append, List.length_singleton] at hk
+      by_cases hk' : k < done.length
+      · rw [List.getElem_append_left hk']
+        exact hblk k hk'
+      · have hke : k = done.length := by omega
+        subst hke
+        rw [List.getElem_append_right (Nat.le_refl _)]
+        simp only [Nat.sub_self, List.getElem_cons_zero]
+        have : blockOf P p done.length = EAct.written eacts := by
+          unfold blockOf
+          rw [hrest, List.take_of_length_le]; simp; omega
+        rw [this, hes]
+        exact ⟨lvl, eacts, rfl, rfl⟩
+    · have hl : p.length - done.length * P.block = written := by omega
+      simp [CW.finalize, hout, hsz, hcnt, hl, List.append_assoc]
+
+/-- the whole run: `write_all`s and flushes, then `finalize` -/
+theorem compRun_finalize_encoded (P : Params) (K : Codec) (level : Nat) (acts : List LAct) :
+    ∃ cs, CompFS.IsEncoded P K (LAct.written acts) cs ∧
+      (compRun P K level acts).2 ++ (compRun P K level acts).1.finalize K =
+        cs.flatten ++ encSizes ⟨cs.map List.length,
+          (LAct.written acts).length - (cs.length - 1) * P.block⟩ :=
+  CW.finalize_encoded P K level _ _ _ (compRun_invS P K level acts)
 
 end MlaModel
